@@ -215,6 +215,21 @@ PROPERTIES = {
         assumptions=["format/parse inverse pair ('float-format')", "species lists are concrete instances"],
         explanation="writer and reader executed symbolically on the same in-memory text",
     ),
+    "C06": dict(
+        engines="ZAB",
+        claim="Rotation invariance of the projector sums: the real Ylm_real (all 16 (l, m), l <= 3) is traced on z3 real terms and the addition theorem "
+              "sum_m Y_lm(G) Y_lm(G') = (2l+1)/(4 pi) P_l(cos angle) is proved for all generic G, G'. Lattice translations of single atoms: G_i . (n a) = "
+              "2 pi (M_i . n) for the index rows of the real Atoms code, so every structure factor is unchanged (lemma exp(2 pi i n) = 1). Whole-calculation "
+              "statements (all energy components under rotations of cell + positions, atom permutations, lattice / grid translations) are not decidable by a "
+              "contract on single functions: bounded native comparisons, labelled bounded.",
+        note="generic directions (|G| > eps, |G_x| > eps); the special branches of Ylm_real are evaluated at the special points by the bounded native check",
+        modules=["contracts.c06"],
+        level="proof",
+        trusted_base=["CPython (executes the traced control flow)", "z3 5.1 (nlsat)", "loader re-compilation of eminus.utils (exact literals)"],
+        assumptions=["defining constraints of norm / sqrt / arctan2 / sin / cos (r^2 = x^2+y^2+z^2, r > 0; angle addition formulas)", "exp(2 pi i n) = 1 for integer n",
+                     "floats as reals"],
+        explanation="the real function executed on z3 terms with defining constraints; polynomial identities discharged by z3's non-linear real arithmetic",
+    ),
     "C10": dict(
         engines="ZB",
         claim="The real get_Eewald is executed with symbolic positions and charges on concrete cells (cubic, triclinic; 2 and 3 atoms; erfc / cos / exp / "
